@@ -5,3 +5,6 @@ import Ypv.Props.C07
 #print axioms Ypv.C07.expand_is_leaves
 #print axioms Ypv.C07.expand_lists_leaves_only
 #print axioms Ypv.C07.no_expand_is_self
+#print axioms Ypv.C07.search_paths_reresolve
+#print axioms Ypv.C07.search_paths_walk
+#print axioms Ypv.C07.escapePathSection_is_escText
